@@ -9,6 +9,9 @@
 #include <tins/mpls.h>
 
 typedef std::vector<uint8_t> Bytes;
+// region monitor (hook H1): a layer that changes bytes of its inner layers while serialising is reported here
+static std::vector<std::pair<int, long> > OVERWRITES;
+static void region_hook(int type, long off) { OVERWRITES.push_back(std::make_pair(type, off)); }
 // kind names of the dissector; "" = a layer the dissector does not interpret (payload from there on)
 static const char* kind_of(PDU::PDUType t) {
     switch (t) {
@@ -96,8 +99,17 @@ static void scenario(const vh::Json& sc, vh::Out& out, vh::Rng& rng, const vh::A
     w.key("kinds").A();
     for (PDU* q = p.get(); q; q = q->inner_pdu()) { std::string k = kind_of(q->pdu_type()); if (k.empty()) break; w.v(k); if (leaf(k)) break; }
     w.E();
-    Bytes b; std::string thrown;
-    try { b = p->serialize(); } catch (std::exception& ex) { thrown = std::string(typeid(ex).name()) + ": " + ex.what(); }
+    // C02: size() and the per-layer header/trailer sizes BEFORE serialising, the region monitor while serialising
+    long size = -1; Bytes b; std::string thrown;
+    w.key("hs").A(); for (PDU* q = p.get(); q; q = q->inner_pdu()) w.A().v((long)q->pdu_type()).v((long)q->header_size()).v((long)q->trailer_size()).E(); w.E();
+    OVERWRITES.clear(); Internals::verif_region_hook = &region_hook;
+    try { size = (long)p->size(); b = p->serialize(); } catch (std::exception& ex) { thrown = std::string(typeid(ex).name()) + ": " + ex.what(); }
+    Internals::verif_region_hook = 0;
+    w.kv("size", size);
+    w.key("overwrite").A(); for (size_t i = 0; i < OVERWRITES.size(); ++i) w.A().v(OVERWRITES[i].first).v(OVERWRITES[i].second).E(); w.E();
+    // a second serialisation of the same object gives the same bytes (sizes cached by the first one stay right)
+    bool again_same = false; try { again_same = p->serialize() == b; } catch (std::exception&) {}
+    w.kv("again_same", again_same);
     w.kv("thrown", thrown).kbytes("bytes", b).E(); out.event(w); out.end();
 }
 int main(int argc, char** argv) { return vh::run(argc, argv, scenario); }
